@@ -9,7 +9,7 @@ THEOREMS = ["C05_invariant_new", "C05_invariant_item", "C05_invariant_reinit", "
             "C05_registers_are_max", "C05_new_is_final", "C05_item_keeps_final", "C05_merge_is_union",
             "C05_merge_equals_sketch_of_union", "C05_merge_registers", "C05_merge_refused"]
 AXIOMS_ALLOWED = []
-TRANSLATORS = [("flags", sklib.translate_flags)]
+TRANSLATORS = [("flags-smh", sklib.translate_flags_smh)]
 TRUSTED_BASE = [
     "hand-written model coq/Model/SetSketch.v of SetSketcher::{new, sketch, sketch_slice, merge, reinit, get_low_sketch} with all "
     "fields (k_vec, lower_k, nbmin, nb_overflow, clipping at I::MAX, both early exits, refresh every m improvements, parameter "
